@@ -55,8 +55,15 @@ class AmfId(Stream):
     def generate(self, rng, tier):
         vs = [0, 1, 63, 64, 65, 0xFFFF, 0x10000, 0xFFFFFF, 0xCAFE42, 0x00FFC0, 0x0000C0, 0x00003F, 0x010000]
         vs += [rng.below(1 << 24) for _ in range(3000 if tier == "quick" else 200000)]
-        cs = [{"amfid": "%06x" % v, "v": v} for v in vs]
-        cs += [{"amfid": s, "v": None} for s in ["", "ca", "cafe", "cafe4", "cafe4242", "CAFE42", "zzzzzz", "cafe4z"]]
+        # the model form is TS 29.571 AmfId, pattern ^[A-Fa-f0-9]{6}$: both cases of the hexadecimal digits are valid
+        def form(i, v):
+            t = "%06x" % v
+            if i % 4 == 1: return t.upper()
+            if i % 4 == 3: return "".join(ch.upper() if (v >> j) & 1 else ch for j, ch in enumerate(t))
+            return t
+        cs = [{"amfid": form(i, v), "v": v} for i, v in enumerate(vs)]
+        cs += [{"amfid": "CAFE42", "v": 0xCAFE42}, {"amfid": "00aBcD", "v": 0xABCD}, {"amfid": "FFFFFF", "v": 0xFFFFFF}]
+        cs += [{"amfid": s, "v": None} for s in ["", "ca", "cafe", "cafe4", "cafe4242", "zzzzzz", "cafe4z"]]
         return cs
 
     def go_case(self, c):
